@@ -266,6 +266,15 @@ let handle line =
       let (sch, _) = parse_schema (words st) in
       let (v, _) = parse_json (words jt) in
       Stdlib.String.concat "" (List.map (fun b -> if b then "1" else "0") (verdicts sch v))
+  | ["korder"; imported; models] ->
+      (* imported: n,n,..  models: name:b,b;name:;...  -> names in order, or FUEL *)
+      let nums t = if t = "" || t = "-" then [] else List.map (fun x -> n_of_int (int_of_string x)) (Stdlib.String.split_on_char ',' t) in
+      let ms = List.map (fun m -> match Stdlib.String.split_on_char ':' m with
+                                  | [nm; bs] -> { k_name = n_of_int (int_of_string nm); k_bases = nums bs }
+                                  | _ -> failwith "model") (List.filter (fun x -> x <> "") (Stdlib.String.split_on_char ';' models)) in
+      (match keep_order (nat_of_int 200) (nums imported) ms with
+       | None -> "FUEL"
+       | Some r -> Stdlib.String.concat "," (List.map (fun m -> string_of_int (int_of_n m.k_name)) r))
   | ["c2s"; s] -> tok_of_str (camel_to_snake u0 (str_of_tok s))
   | ["s2uc"; d; s] -> tok_of_str (s2uc u0 (n_of_int (int_of_string d)) (str_of_tok s))
   | _ -> "BADREQ"
